@@ -2,6 +2,7 @@ package lens
 
 import (
 	"context"
+	"os"
 	"errors"
 	"fmt"
 	"math/rand/v2"
@@ -177,7 +178,7 @@ func (v *c10SkipVerifier) SkipVerify(ctx context.Context, opts notation.Verifier
 }
 
 func (l c10) Exec(env *core.Env) *core.Result {
-	if env.Plan.W("stack") == 1 && c10RealStack != nil {
+	if (env.Plan.W("stack") == 1 || os.Getenv("VERIF_C10_STACK") == "B") && c10RealStack != nil {
 		return c10RealStack(env)
 	}
 	p := env.Plan
